@@ -405,7 +405,7 @@ def run_case(case):
         if len(viol) > 6:
             break
     # ---- re-solve history on ONE model object: a proven-optimal solve() followed by a solve() whose solver run is inconclusive
-    if case["kind"] in ("model", "minerrorflow", "minsetcover") and not is_min:
+    if case["kind"] in ("model", "minerrorflow", "minsetcover", "mingenset", "numpaths", "corpus"):
         for mode, st in (("override", "kTimeLimit"), ("skip", "kInterrupt"), ("custom", "kTimeLimit")):
             M.TRACE.reset(); M.TRACE.inject = None
             b2 = M.safe_call(build)
@@ -426,6 +426,11 @@ def run_case(case):
                 continue
             sv = M.safe_call(m.is_solved)
             what = f"solve() optimal, then solve() again with the solver run ending {st} ({mode})"
+            if (is_min or case["kind"] == "numpaths") and s2[0] == "ok" and s2[1] not in (False, None):
+                # a search over k may survive the fault (it hit a lower-bound / guessed-weights helper, whose failure only costs the shortcut):
+                # the first-solve plans above judge that; here only a FAILED re-solve is of interest
+                obs["c13.resolve_search_survived_fault"] += 1
+                continue
             if s2[0] == "ok" and s2[1] not in (False, None):
                 viol.append({"sig": f"C13/resolve/solve-returns-true-after-inconclusive-run/{kind}", "msg": f"{what}; {label}"})
             if sv[0] == "ok" and sv[1]:
